@@ -170,6 +170,12 @@ def gen_asm_generic(ch):
             if ch.chance(1, 3, "gglobal"):
                 lines.append(f"global {name}")
             lines.append(f"{name}:")
+            if ch.chance(1, 4, "grepeat"):
+                # assembler macro state (recording / repeat count)
+                lines.append(f"repeat {1 + ch.draw(4, 'grepn')}")
+                lines.append(f"dd {ch.draw(1 << 30, 'grepword')}")
+                lines.append(f"db {ch.draw(256, 'grepbyte')}")
+                lines.append("endrepeat")
             for _ in range(1 + ch.draw(2, "ngdata")):
                 if ch.chance(1, 2, "gdd"):
                     lines.append(f"dd {ch.draw(1 << 30, 'gword')}")
